@@ -7,6 +7,7 @@ from __future__ import annotations
 
 from rules import bf3
 from rules.exactread import rule_exact_reads
+from rules import stackrt, stacktamper
 
 LEVEL = "other"
 
@@ -19,4 +20,5 @@ def run(prog, chk, tier):
     if bf3.rule_reader_layout(m, chk, "C05"):
         bf3.reader_rules(m, chk, "C05")
     rule_exact_reads(prog, chk, "C05")
+    stackrt.guarded(chk, "C05.tamper-scenarios", stacktamper.tamper_rules, prog, chk, "C05", tier)
     chk.assume("cmac(data, key, iv) is the MAC of the documented layout (decided by C03/C16 clauses)")
